@@ -2317,11 +2317,11 @@ func (t *Terminal) updatePromptOffset() ([]rune, []rune) {
 	}
 	maxWidth := util.Max(1, w.Width()-t.promptLen-1)
 
-	_, overflow := t.trimLeft(t.input[:t.cx], maxWidth)
+	_, overflow := t.trimLeft(t.input[:t.cx], maxWidth, 2)
 	minOffset := int(overflow)
 	maxOffset := minOffset + (maxWidth-util.Max(0, maxWidth-t.cx))/2
 	t.xoffset = util.Constrain(t.xoffset, minOffset, maxOffset)
-	before, _ := t.trimLeft(t.input[t.xoffset:t.cx], maxWidth)
+	before, _ := t.trimLeft(t.input[t.xoffset:t.cx], maxWidth, 2)
 	beforeLen := t.displayWidth(before)
 	after, _ := t.trimRight(t.input[t.cx:], maxWidth-beforeLen)
 	afterLen := t.displayWidth(after)
@@ -2968,7 +2968,10 @@ func (t *Terminal) displayWidthWithLimit(runes []rune, prefixWidth int, limit in
 	return width
 }
 
-func (t *Terminal) trimLeft(runes []rune, width int) ([]rune, int32) {
+// trimLeft drops runes from the front until the rest fits in width columns when
+// it is printed after a prefix of prefixWidth columns (the leading ellipsis):
+// tab stops are counted from the start of what will be displayed
+func (t *Terminal) trimLeft(runes []rune, width int, prefixWidth int) ([]rune, int32) {
 	width = util.Max(0, width)
 	var trimmed int32
 	// Assume that each rune takes at least one column on screen
@@ -2983,7 +2986,7 @@ func (t *Terminal) trimLeft(runes []rune, width int) ([]rune, int32) {
 	for currentWidth > width && len(runes) > 0 {
 		runes = runes[1:]
 		trimmed++
-		currentWidth = t.displayWidthWithLimit(runes, 2, width)
+		currentWidth = t.displayWidthWithLimit(runes, prefixWidth, width)
 	}
 	return runes, trimmed
 }
@@ -3197,7 +3200,7 @@ func (t *Terminal) printHighlighted(result Result, colBase tui.ColorPair, colMat
 				// --keep-right is effective when the query is empty: no positions are
 				// reported, or the list was filtered by a deny list only (exclude)
 				if t.keepRight && (pos == nil || match && t.merger.pattern != nil && t.merger.pattern.HasNoTerms()) {
-					trimmed, diff := t.trimLeft(line, maxWidth-ellipsisWidth)
+					trimmed, diff := t.trimLeft(line, maxWidth-ellipsisWidth, ellipsisWidth)
 					transformOffsets(diff, false)
 					line = append(ellipsis, trimmed...)
 				} else if !t.overflow(line[:maxe], maxWidth-ellipsisWidth) {
@@ -3213,7 +3216,7 @@ func (t *Terminal) printHighlighted(result Result, colBase tui.ColorPair, colMat
 					}
 					// ..ri..
 					var diff int32
-					line, diff = t.trimLeft(line, maxWidth-ellipsisWidth)
+					line, diff = t.trimLeft(line, maxWidth-ellipsisWidth, ellipsisWidth)
 
 					// Transform offsets
 					transformOffsets(diff, rightTrim)
